@@ -6,6 +6,7 @@ use std::io::Write;
 mod c29;
 mod relocs;
 mod c16;
+mod c02;
 
 fn main() {
     std::panic::set_hook(Box::new(|_| {}));
@@ -17,6 +18,7 @@ fn main() {
         "c13" => relocs::c13,
         "c12" => relocs::c12,
         "c16" => c16::run_case,
+        "c02" => c02::run_case,
         _ => {
             eprintln!("unknown subcommand {cmd}");
             std::process::exit(2);
